@@ -2,6 +2,7 @@
   Driver for C19.  stdin: one case per line, stdout: `<pivot observation>\t-`.
 
     S <class> lim=<N>; <op>; <op>; …        system-call sequence, run on the pivot `Kernel.Model`
+    P <class>; <op>; fork[<op>, …]; …        process/signal sequence, run on the pivot `Kernel.Signal`
     H <tag> <hex script> real=<observation>  shell-level case: the pivot has no shell interpreter; the
                                              reference observation is the one the real kernel produced,
                                              carried in the case and echoed here
@@ -11,6 +12,7 @@
 -/
 import YashModel.Common.Proto
 import YashModel.Kernel.Model
+import YashModel.Kernel.Signal
 open YashModel YashModel.Kernel YashModel.Proto
 
 def octDigits : Nat → Nat → List Char
@@ -211,8 +213,103 @@ def runSeq (line : String) : String :=
       (k', o :: acc.2)) (initK limit, [])
     " ".intercalate outs.reverse ++ " | " ++ showFinal k
 
+/-! ## process/signal cases: `P <class>; op; op; fork[op, op, …]; …` -/
+
+namespace SigDrv
+open YashModel.Kernel.Signal
+
+def parseSig (t : String) : Option Sig := Sig.all.find? (·.name == t)
+
+def parseSigs (t : String) : List Sig :=
+  if t = "-" then [] else (t.splitOn "+").filterMap parseSig
+
+def showSet (a : SigSet) : String :=
+  let l := Sig.all.filter a
+  if l.isEmpty then "-" else "+".intercalate (l.map Sig.name)
+
+def showList (l : List Sig) : String := showSet (SigSet.ofList l)
+
+def parseDisp : String → Option Disp
+  | "d" => some .dfl | "i" => some .ign | "c" => some .catch | _ => none
+
+def showDisp : Disp → String
+  | .dfl => "d" | .ign => "i" | .catch => "c"
+
+def showStatus : Status → String
+  | .running => "run" | .exited n => s!"x{n}" | .signaled s => s!"s{s.name}"
+
+/-- one operation of process `me`; `par` is its parent while `me` is a forked child (`none` at top level).
+    Returns the new (`me`, `par`) and the token (none when the operation does not return). -/
+def step (me : Proc) (par : Option Proc) (t : String) : Proc × Option Proc × Option String :=
+  let tok (p : Proc) (x : String) : Option String := if p.alive then some x else none
+  match words t with
+  | ["blk", l] => let p := block me (parseSigs l); (p, par, tok p "ok")
+  | ["unb", l] => let p := unblock me (parseSigs l); (p, par, tok p "ok")
+  | ["set", l] => let p := setMask me (SigSet.ofList (parseSigs l)); (p, par, tok p "ok")
+  | ["act", s, d] =>
+    match parseSig s, parseDisp d with
+    | some s, some d => let (old, p) := act me s d; (p, par, some ("=" ++ showDisp old))
+    | _, _ => (me, par, some "?")
+  | ["get", s] =>
+    match parseSig s with
+    | some s => (me, par, some ("=" ++ showDisp (me.disp s)))
+    | none => (me, par, some "?")
+  | ["raise", s] | ["kself", s] =>
+    match parseSig s with
+    | some s => let p := generate me s; (p, par, tok p "ok")
+    | none => (me, par, some "?")
+  | ["kgrp", s] =>
+    match parseSig s with
+    | some s => let p := generate me s; (p, par.map (generate · s), tok p "ok")
+    | none => (me, par, some "?")
+  | ["kpar", s] =>
+    match parseSig s with
+    | some s => (me, par.map (generate · s), some "ok")
+    | none => (me, par, some "?")
+  | ["pend"] => (me, par, some ("=" ++ showSet me.pending))
+  | ["mask"] => (me, par, some ("=" ++ showSet me.mask))
+  | ["caught"] => let (l, p) := takeCaught me; (p, par, some ("=" ++ showList l))
+  | ["exit", n] => (exit me (n.toNat?.getD 0), par, none)
+  | _ => (me, par, some "?")
+
+def runChild (par : Proc) (ops : List String) : Proc × String :=
+  let (c, p, toks) := ops.foldl (fun (acc : Proc × Proc × List String) op =>
+    let (c, p, toks) := acc
+    if !c.alive then acc else
+      match step c (some p) op with
+      | (c', p', some t) => (c', p'.getD p, t :: toks)
+      | (c', p', none) => (c', p'.getD p, toks)) (fork par, par, [])
+  let c := exit c 0
+  (generate p .CHLD, "{" ++ ",".intercalate toks.reverse ++ "}" ++ showStatus c.status)
+
+def runTop (ops : List String) : String :=
+  let (p, toks) := ops.foldl (fun (acc : Proc × List String) op =>
+    let (p, toks) := acc
+    if !p.alive then acc
+    else if op.startsWith "fork[" then
+      let body := ((op.drop 5).toString.splitOn "]").headD ""
+      let cops := (splitTrim body ",").filter (· ≠ "")
+      let (p', t) := runChild p cops
+      (p', t :: toks)
+    else match step p none op with
+      | (p', _, some t) => (p', t :: toks)
+      | (p', _, none) => (p', toks)) (Proc.init, [])
+  let fin :=
+    if p.alive then
+      s!"| pend={showSet p.pending} mask={showSet p.mask} caught={showList p.caught} disp={String.join (Sig.all.map fun s => showDisp (p.disp s))}"
+    else s!"DIED:{showStatus p.status}"
+  " ".intercalate (toks.reverse ++ [fin])
+
+def runLine (line : String) : String :=
+  match splitTrim line ";" with
+  | [] => "?"
+  | _ :: ops => runTop (ops.filter (· ≠ ""))
+
+end SigDrv
+
 def runLine (line : String) : String :=
   if line.startsWith "S " then runSeq line ++ "\t-"
+  else if line.startsWith "P " then SigDrv.runLine line ++ "\t-"
   else if line.startsWith "H " then
     match line.splitOn " real=" with
     | [_, obs] => obs ++ "\t-"
